@@ -43,7 +43,7 @@ def run(tier, replay):
     mcinfo = {}
     # (1) exhaustive: L2 against L1 under a well-behaved environment (nothing registered under a stopping subtree)
     for cfg in (["KActorsMCq"] if quick else ["KActorsMC", "KActorsMCnz"]):
-        mc = lib.tlc("KActorsMC", cfg=cfg, pid=PID, workers=4 if quick else 8, timeout=1500, xmx="8g")
+        mc = lib.tlc("KActorsMC", cfg=cfg, pid=PID, workers=4 if quick else 8, timeout=3000, xmx="8g")
         lib.tlc_must_pass(mc, f"{cfg}: shutdown protocol (L2) vs stop safety (L1)")
         states += mc["distinct"]; trans += mc["generated"]
         mcinfo[cfg] = {"states": mc["distinct"], "transitions": mc["generated"], "wall_s": round(mc["wall_s"], 1)}
@@ -55,14 +55,14 @@ def run(tier, replay):
             print("\n".join(rc["out"].splitlines()[-30:]))
             lib.tool_error(f"vacuity guard: witness for {inv} not reachable in the model (log {rc['log']})")
     # model-only explorations (hypotheses / secondary), never alarms
-    fr = lib.tlc("KActorsMC", cfg="KActorsMCfree", pid=PID, workers=4, timeout=900)
-    if fr["error"]:
-        lib.tool_error(f"KActorsMCfree did not run (log {fr['log']})")
-    mcinfo["free_environment_safety"] = ("counterexample (registration on a supervisor whose task already exited) - replayed as "
-                                         "scenario 'zombie'") if fr["violated"] else "holds"
     if not quick:
+        fr = lib.tlc("KActorsMC", cfg="KActorsMCfree", pid=PID, workers=4, timeout=1800)
+        if fr["error"]:
+            lib.tool_error(f"KActorsMCfree did not run (log {fr['log']})")
+        mcinfo["free_environment_safety"] = ("counterexample (registration on a supervisor whose task already exited) - replayed as "
+                                             "scenario 'zombie'") if fr["violated"] else "holds"
         for cfg, key in (("KActorsMClive", "liveness_behaved_environment"), ("KActorsMClivefree", "liveness_free_environment")):
-            lv = lib.tlc("KActorsMC", cfg=cfg, pid=PID, workers=8, timeout=1500, xmx="8g")
+            lv = lib.tlc("KActorsMC", cfg=cfg, pid=PID, workers=8, timeout=3000, xmx="8g")
             import re
             tviol = re.search(r"Temporal propert(y \S+ was|ies were) violated", lv["out"]) is not None
             if lv["error"] and not tviol:
